@@ -25,7 +25,6 @@ func (c08) Rule() string {
 }
 func (c08) Assumptions() []string {
 	return []string{"'page parameters' = all keys of Params.Page; include is not in the statement's list and is not compared (its effect on the field selection is)",
-		"filter labels do not contain backslashes or double quotes (the statement lists space & ? # % + /)",
 		"permutations keep the relative order of same-named parameters"}
 }
 func (c08) Floors(tier string, c map[string]int64) []string {
@@ -216,6 +215,10 @@ func (m c08) run(c *Ctx, s *SchemaSpec, schema *jsonapi.Schema, spec *URLSpec, r
 		return "plain"
 	}
 	_ = where
+	if (err2 != nil || u2 == nil) && strings.HasPrefix(u.Params.FilterLabel, "{") {
+		c.Violate("string-does-not-parse/label-starting-with-brace", "String() = %q is rejected: %v; %s", str, err2, desc())
+		return
+	}
 	if err2 != nil || u2 == nil {
 		c.Violate("string-does-not-parse", "String() = %q is rejected: %v; %s", str, err2, desc())
 		return
@@ -293,12 +296,6 @@ func (m c08) Case(c *Ctx, r *RNG) {
 	}
 	for i := 0; i < 4; i++ {
 		spec := genURL(r, s)
-		// labels with backslashes or quotes are outside the quantified domain
-		for j := range spec.Params {
-			if spec.Params[j].Name == "filter" && !strings.HasPrefix(spec.Params[j].Value, "{") {
-				spec.Params[j].Value = strings.NewReplacer("\\", "", "\"", "").Replace(spec.Params[j].Value)
-			}
-		}
 		// bias towards URLs the parser accepts: valid type, no unknown parameter
 		if r.Chance(2, 3) {
 			if _, _, ok := resTypeOf(s, spec.Frags); !ok {
@@ -343,9 +340,11 @@ func (m c08) Directed(c *Ctx) {
 		run("page-value-"+v, []string{"t1"}, QP{"page[size]", v}, QP{"page[number]", "2"})
 		run("page-key-"+v, []string{"t1"}, QP{"page[" + v + "]", "x"})
 		run("label-"+v, []string{"t1"}, QP{"filter", v})
+		run("label-escaped-"+v, []string{"t1"}, QP{"filter", `x\u0007` + v + `\u007f\\\"`})
 		run("filter-string-"+v, []string{"t1"}, QP{"filter", fmt.Sprintf(`{"f":"a","o":"=","v":%q}`, v)})
 		run("filter-tree-"+v, []string{"t1"}, QP{"filter", fmt.Sprintf(`{"o":"and","v":[{"f":"a","o":"=","v":%q},{"o":"or","v":[{"f":"b","o":"<","v":3,"c":%q}]}]}`, v, v)})
 	}
+	run("label-brace", []string{"t1"}, QP{"filter", `\u007Bx`})
 	run("fieldless-type", []string{"e"})
 	run("fieldless-type-included", []string{"t1"}, QP{"fields[e]", "x"})
 	run("everything", []string{"t1"}, QP{"include", "authors.back,author"}, QP{"fields[t1]", "b,a"}, QP{"fields[t2]", "x"}, QP{"sort", "-b,a"}, QP{"page[size]", "10"}, QP{"page[number]", "2"}, QP{"filter", "lbl"})
